@@ -64,6 +64,17 @@ trait Help {
     fn via_own(self, s: u64) -> u64 where Self: Sized { let d = DROPS.lock().unwrap().len() as u64; self.reqv(s) + 1000 * d }
 }
 
+#[unimock(api = HelpRcMock)]
+trait HelpRc {
+    fn reqrc(self: std::rc::Rc<Self>, s: u64) -> u64;
+    fn via_rc(self: std::rc::Rc<Self>, s: u64) -> u64 { let d = DROPS.lock().unwrap().len() as u64; self.reqrc(s) + 1000 * d }
+}
+#[unimock(api = HelpArcMock)]
+trait HelpArc {
+    fn reqarc(self: std::sync::Arc<Self>, s: u64) -> u64;
+    fn via_arc(self: std::sync::Arc<Self>, s: u64) -> u64 { let d = DROPS.lock().unwrap().len() as u64; self.reqarc(s) + 1000 * d }
+}
+
 /// an instance that has lent values is dropped while its thread unwinds from an unrelated panic: the values are
 /// released then (exactly once), not leaked
 fn run_unwind_drop(n: usize, clone: bool, out: &mut impl Write) {
@@ -83,7 +94,9 @@ fn run_unwind_drop(n: usize, clone: bool, out: &mut impl Write) {
 /// values lent through the delegation helpers of provided methods stay alive until the mock is torn down
 fn run_helper(n: usize, end: usize, out: &mut impl Write) {
     let lend = || HelpMock::req.each_call(matching!(_)).answers(&|u, s| { u.make_ref(A(s)); s });
-    let mut u = if end == 3 { Unimock::new((lend(), HelpMock::reqv.each_call(matching!(_)).answers(&|_, s| s + DROPS.lock().unwrap().len() as u64))) } else { Unimock::new(lend()) };
+    let mut u = if end == 4 { Unimock::new((lend(), HelpRcMock::reqrc.each_call(matching!(_)).answers(&|_, s| s + DROPS.lock().unwrap().len() as u64))) }
+        else if end == 5 { Unimock::new((lend(), HelpArcMock::reqarc.each_call(matching!(_)).answers(&|_, s| s + DROPS.lock().unwrap().len() as u64))) }
+        else if end == 3 { Unimock::new((lend(), HelpMock::reqv.each_call(matching!(_)).answers(&|_, s| s + DROPS.lock().unwrap().len() as u64))) } else { Unimock::new(lend()) };
     let mut early = vec![];
     let mut wrong = 0;
     for k in 0..n {
@@ -100,6 +113,23 @@ fn run_helper(n: usize, end: usize, out: &mut impl Write) {
             let _ = u.make_ref(A(9_000_000));            // lent by the instance itself (the helpers' values live in the helpers)
             let r = u.via_own(7);
             if r != 7 { early.push(format!("during-by-value-delegation:[result {r}: 1000 x values dropped when the default body started + 1 x values dropped when the answer ran]")); }
+        }
+        4 | 5 => {
+            // the sole STRONG owner of an Rc / Arc (a Weak is outstanding) calls a provided method: the instance itself is handed to
+            // the default body, so nothing it has lent is gone inside that body or inside the required method's answer
+            let _ = u.make_ref(A(9_000_000));
+            let r = if end == 4 {
+                let rc = std::rc::Rc::new(u); let w = std::rc::Rc::downgrade(&rc);
+                let r = std::panic::catch_unwind(std::panic::AssertUnwindSafe(move || rc.via_rc(7))); drop(w); r
+            } else {
+                let ar = std::sync::Arc::new(u); let w = std::sync::Arc::downgrade(&ar);
+                let r = std::panic::catch_unwind(std::panic::AssertUnwindSafe(move || ar.via_arc(7))); drop(w); r
+            };
+            match r {
+                Ok(7) => {}
+                Ok(r) => early.push(format!("during-rc-arc-delegation-with-weak:[result {r}: 1000 x values dropped when the default body started + 1 x values dropped when the answer ran]")),
+                Err(p) => early.push(format!("during-rc-arc-delegation-with-weak:[panicked: {}]", p.downcast_ref::<String>().cloned().unwrap_or_default().lines().next().unwrap_or("").replace(['[', ']'], "|"))),
+            }
         }
         1 => {
             let u2 = u.no_verify_in_drop();
